@@ -2,6 +2,8 @@
   C14 — helper lemmas for the property theorems in `Verif.Props.C14`.
 -/
 import Verif.Model.C14
+import Mathlib.Algebra.Order.Field.Rat
+import Mathlib.Tactic.Linarith
 
 namespace Verif.C14
 
@@ -802,5 +804,235 @@ theorem run_append (r : Bool) (F : Fit) (as bs : List Action) :
   induction as generalizing F with
   | nil => rfl
   | cons a as ih => simp [run, exec, ih]
+
+/-! ### the residual the fit evaluates -/
+
+/-- every dataset of every condition is a dataset of the model, and the condition's local vector (computed from the
+    group's first dataset) is the dataset's own direct reading -/
+theorem mem_generateConditions (m : ModelData) (uniq : List String) (hinj : CondInj m)
+    (hin : ∀ d ∈ m.data, NamesIn d.trans uniq) (cd : Condition × List Data) (hcd : cd ∈ generateConditions m uniq)
+    (d : Data) (hd : d ∈ cd.2) :
+    d ∈ m.data ∧ ∀ g, getLocalParams cd.1 g = localDirect d.trans uniq g := by
+  unfold generateConditions at hcd
+  simp only [List.mem_filterMap] at hcd
+  obtain ⟨grp, hgrp, h⟩ := hcd
+  cases grp with
+  | nil => simp at h
+  | cons r rest =>
+    simp only [Option.some.injEq] at h
+    subst h
+    obtain ⟨hr, hdm, hs⟩ := mem_groups m _ r d hgrp (List.mem_cons_self) hd
+    refine ⟨hdm, fun g => ?_⟩
+    show getLocalParams (mkCondition r.trans uniq) g = _
+    rw [mkCondition_congr _ _ uniq (hinj r hr d hdm hs), getLocalParams_mkCondition _ _ _ (hin d hdm)]
+
+theorem mem_residual (f : ModelFn) (m : ModelData) (uniq : List String) (hinj : CondInj m)
+    (hin : ∀ d ∈ m.data, NamesIn d.trans uniq) (g : List Rat) (r : Rat) (hr : r ∈ m.residual f uniq g) :
+    ∃ d ∈ m.data, r ∈ dataResidual f (localDirect d.trans uniq g) d := by
+  unfold ModelData.residual residualOf at hr
+  simp only [List.mem_flatMap] at hr
+  obtain ⟨cd, hcd, d, hd, hr⟩ := hr
+  obtain ⟨hdm, hl⟩ := mem_generateConditions m uniq hinj hin cd hcd d hd
+  exact ⟨d, hdm, by rw [← hl g]; exact hr⟩
+
+/-- dataset `d` is noise-free data of the model function `f` at the local parameter vector `p` -/
+def NoiseFree (f : ModelFn) (p : List Rat) (d : Data) : Prop :=
+  d.y.map bitsToRat = d.x.map fun x => f p (bitsToRat x)
+
+theorem zipWith_residual_zero (f : ModelFn) (p : List Rat) (xs ys : List Nat)
+    (h : ys.map bitsToRat = xs.map fun x => f p (bitsToRat x)) :
+    ∀ r ∈ List.zipWith (fun x y => bitsToRat y - f p (bitsToRat x)) xs ys, r = 0 := by
+  induction xs generalizing ys with
+  | nil => intro r hr; simp at hr
+  | cons x xs ih =>
+    cases ys with
+    | nil => intro r hr; simp at hr
+    | cons y ys =>
+      simp only [List.map_cons, List.cons.injEq] at h
+      intro r hr
+      simp only [List.zipWith_cons_cons, List.mem_cons] at hr
+      rcases hr with rfl | hr
+      · rw [h.1]; exact sub_self _
+      · exact ih ys h.2 r hr
+
+theorem dataResidual_zero (f : ModelFn) (p : List Rat) (d : Data) (h : NoiseFree f p d) :
+    ∀ r ∈ dataResidual f p d, r = 0 := zipWith_residual_zero f p d.x d.y h
+
+theorem mem_zipWith_zip {α β γ} (fn : α → β → γ) (l1 : List α) (l2 : List β) (c : γ)
+    (h : c ∈ List.zipWith fn l1 l2) : ∃ ab ∈ l1.zip l2, c = fn ab.1 ab.2 := by
+  induction l1 generalizing l2 with
+  | nil => simp at h
+  | cons a as ih =>
+    cases l2 with
+    | nil => simp at h
+    | cons b bs =>
+      simp only [List.zipWith_cons_cons, List.mem_cons] at h
+      rcases h with rfl | h
+      · exact ⟨(a, b), by simp, rfl⟩
+      · obtain ⟨ab, hab, e⟩ := ih bs h
+        exact ⟨ab, by simp [hab], e⟩
+
+theorem mem_residualAt (fs : List ModelFn) (F : Fit) (g : List Rat) (r : Rat) (h : r ∈ F.residualAt fs g) :
+    ∃ mf ∈ F.models.zip fs, r ∈ mf.1.residual mf.2 (F.table.map (·.1)) g := by
+  unfold Fit.residualAt at h
+  simp only [List.mem_flatten] at h
+  obtain ⟨l, hl, hr⟩ := h
+  obtain ⟨mf, hmf, e⟩ := mem_zipWith_zip _ _ _ _ hl
+  exact ⟨mf, hmf, e ▸ hr⟩
+
+/-! ### sums of squares -/
+
+theorem sumSq_nonneg (l : List Rat) : 0 ≤ sumSq l := by
+  unfold sumSq
+  induction l with
+  | nil => simp
+  | cons a as ih =>
+    simp only [List.map_cons, List.sum_cons]
+    have := mul_self_nonneg a
+    linarith
+
+theorem sumSq_eq_zero_iff (l : List Rat) : sumSq l = 0 ↔ ∀ r ∈ l, r = 0 := by
+  unfold sumSq
+  induction l with
+  | nil => simp
+  | cons a as ih =>
+    simp only [List.map_cons, List.sum_cons, List.mem_cons, forall_eq_or_imp]
+    have h1 := mul_self_nonneg a
+    have h2 : 0 ≤ (as.map fun r => r * r).sum := sumSq_nonneg as
+    constructor
+    · intro h
+      have ha : a * a = 0 := by linarith
+      have hs : (as.map fun r => r * r).sum = 0 := by linarith
+      exact ⟨mul_self_eq_zero.mp ha, ih.mp hs⟩
+    · rintro ⟨rfl, h⟩
+      rw [ih.mpr h]; simp
+
+/-! ### the fit and the residual -/
+
+theorem writeBack_maskSel (m : List Bool) (v : List Rat) : writeBack m (maskSel m v) v = v := by
+  induction m generalizing v with
+  | nil => cases v <;> rfl
+  | cons b ms ih =>
+    cases v with
+    | nil => cases b <;> rfl
+    | cons a as =>
+      cases b
+      · simp only [maskSel, writeBack, ih]
+      · simp only [maskSel, writeBack, ih]
+
+theorem writeBack_length (m : List Bool) (x p : List Rat) : (writeBack m x p).length = p.length := by
+  induction m generalizing x p with
+  | nil => cases x <;> cases p <;> rfl
+  | cons b ms ih =>
+    cases p with
+    | nil => cases b <;> cases x <;> rfl
+    | cons a as =>
+      cases b
+      · simp only [writeBack, List.length_cons, ih]
+      · cases x with
+        | nil => rfl
+        | cons y ys => simp only [writeBack, List.length_cons, ih]
+
+theorem setValues_values (T : List (String × Param)) (v : List Rat) (h : v.length = T.length) :
+    (setValues T v).map (·.2.value) = v := by
+  induction T generalizing v with
+  | nil => cases v with
+    | nil => rfl
+    | cons a as => simp at h
+  | cons e es ih =>
+    cases v with
+    | nil => simp at h
+    | cons a as =>
+      simp only [List.length_cons, Nat.add_right_cancel_iff] at h
+      have := ih as h
+      simp only [setValues] at this ⊢
+      simp [this]
+
+theorem tableAfter_values (T : List (String × Param)) (x : List Rat) :
+    (tableAfter T x).map (·.2.value) = writeBack (T.map (!·.2.fixed)) x (T.map (·.2.value)) := by
+  unfold tableAfter
+  apply setValues_values
+  rw [writeBack_length]; simp
+
+theorem tableAfter_start (T : List (String × Param)) :
+    tableAfter T (maskSel (T.map (!·.2.fixed)) (T.map (·.2.value))) = T := by
+  unfold tableAfter
+  rw [writeBack_maskSel]
+  exact setValues_self T
+
+/-- the objective at the start point the fit hands over is the residual at the table values -/
+theorem objective_start (fs : List ModelFn) (G : Fit) :
+    G.objective fs (maskSel G.fitted G.values) = G.residualAt fs G.values := by
+  unfold Fit.objective
+  rw [writeBack_maskSel]
+
+
+/-! ### generating values given by NAME -/
+
+/-- what a dataset reads when the parameters are given by NAME (`gen`): the independent reading of "a shared name is
+    one value every dataset sees, a renamed parameter has its own, a constant is itself" -/
+def localByName (tr : List (String × Target)) (gen : String → Rat) : List Rat :=
+  tr.map fun e => match e.2 with
+    | .name s => gen s
+    | .const v _ => v
+
+theorem getD_idxOf_of_gen (T : List (String × Param)) (gen : String → Rat) (hgen : ∀ e ∈ T, e.2.value = gen e.1)
+    (s : String) (hs : s ∈ T.map (·.1)) :
+    (T.map (·.2.value)).getD ((T.map (·.1)).idxOf s) 0 = gen s := by
+  induction T with
+  | nil => cases hs
+  | cons e es ih =>
+    obtain ⟨k, p⟩ := e
+    simp only [List.map_cons, List.idxOf_cons]
+    by_cases e' : s = k
+    · subst e'
+      simp only [beq_self_eq_true, cond_true, List.getD_cons_zero]
+      exact hgen (s, p) List.mem_cons_self
+    · have h2 : (k == s) = false := by simp [Ne.symm e']
+      rw [h2]
+      simp only [cond_false, List.getD_cons_succ]
+      exact ih (fun e he => hgen e (List.mem_cons_of_mem _ he)) (by simpa [e'] using hs)
+
+theorem localDirect_of_table (T : List (String × Param)) (gen : String → Rat)
+    (hgen : ∀ e ∈ T, e.2.value = gen e.1) (tr : List (String × Target)) (hin : NamesIn tr (T.map (·.1))) :
+    localDirect tr (T.map (·.1)) (T.map (·.2.value)) = localByName tr gen := by
+  unfold localDirect localByName
+  apply List.map_congr_left
+  intro e he
+  cases ht : e.2 with
+  | const v r => rfl
+  | name s => exact getD_idxOf_of_gen T gen hgen s (hin e he s ht)
+
+theorem mem_of_lookup_eq_some (T : List (String × Param)) (n : String) (p : Param) (h : T.lookup n = some p) :
+    (n, p) ∈ T := by
+  induction T with
+  | nil => cases h
+  | cons e es ih =>
+    obtain ⟨k, q⟩ := e
+    simp only [List.lookup_cons] at h
+    by_cases e' : n = k
+    · subst e'
+      simp only [beq_self_eq_true, Option.some.injEq] at h
+      subst h; exact List.mem_cons_self
+    · have : (n == k) = false := by simp [e']
+      rw [this] at h
+      exact List.mem_cons_of_mem _ (ih h)
+
+/-- `_set_params` keeps the generating values when every key of the new table was a key of the old one -/
+theorem setParams_gen (old : List (String × Param)) (names : List String) (defs : List (Option Param))
+    (gen : String → Rat) (hgen : ∀ e ∈ old, e.2.value = gen e.1) (hsub : ∀ n ∈ names, n ∈ old.map (·.1)) :
+    ∀ e ∈ setParams old names defs, e.2.value = gen e.1 := by
+  intro e he
+  unfold setParams at he
+  simp only [List.mem_map] at he
+  obtain ⟨nd, hnd, rfl⟩ := he
+  have hn : nd.1 ∈ names := (List.of_mem_zip hnd).1
+  have hs := lookup_isSome_of_mem_keys old nd.1 (hsub _ hn)
+  cases hl : old.lookup nd.1 with
+  | none => simp [hl] at hs
+  | some p =>
+    simp only [Option.getD_some]
+    exact hgen _ (mem_of_lookup_eq_some old nd.1 p hl)
+
 
 end Verif.C14
